@@ -40,5 +40,10 @@ CHECKS["C12"] = {
     "note": "Trusted: Coq kernel + vm_compute; tools/translate.py; Model/Exports.v, Model/Safe.v; harness glue. Bit-equality of the two compiled forms is observed on the instantiated DIMS set, not proved. Flocq's 4 axioms appear through the float models mentioned in the statements.",
     "technique": "Coq proof by reflection over translator-generated macro tables + semantic lemma; differential const-vs-any runs",
 }
+CHECKS["C15"] = {
+    "text": "Coq theorems about an executable model of cfavml-gemm's transpose (C15_permutation, C15_avx2_entries, C15_reg_transpose_f32/f64, C15_rejects(+_no_overflow, +_refuted), C15_involution): for every element type, width, height (product < 2^64), element kind, AVX2 flag, build profile and form of the shape check, the run returns with result[i*h+j] = data[j*w+i], every access in bounds and every cell written; every length mismatch (including overflowing products, for the checked_mul/debug forms) panics; the plain release product is refuted with a concrete witness. The model's configuration (shape-check forms, both shuffle networks line by line, strides, geometry) is read from the current source on every run, and the model is compared with the real transpose_matrix::<T> (10 types, guard pages, release+debug, 8.7k/42k cases quick/thorough).",
+    "note": "Trusted: Coq kernel + vm_compute; lane semantics of 7 AVX intrinsics in Model/Transpose.v (exercised against hardware); source parser in checks/c15.py; harness/gemmh. Non-AVX2 route for f32/u32/f64/u64 not executable on this host; placement w.r.t. unmapped memory observed not proved; no axioms.",
+    "technique": "Coq proof by loop invariants and symbolic lane computation over an executable model parametrised by a configuration parsed from the source; differential correspondence under guard pages",
+}
 NOT_APPLICABLE = {p: "check under construction in this session (see DESIGN.md §6 order of work); not yet claimed"
-                  for p in ["C02", "C04", "C05", "C06", "C08", "C10", "C13", "C14", "C15", "C16", "C17", "C18"]}
+                  for p in ["C02", "C04", "C05", "C06", "C08", "C10", "C13", "C14", "C16", "C17", "C18"]}
